@@ -68,6 +68,9 @@ def run_enum(rep, module_name, chunks, workers=None, time_cap=None, serial=False
             absorb(*_run(c))
     else:
         ctx = mp.get_context("fork")
+        from mc import runner as _runner
+
+        _runner.scratch_dir()  # before the fork: one scratch directory per check, removed at exit
         with ctx.Pool(workers, initializer=_init, initargs=(module_name,)) as pool:
             for res, err in pool.imap_unordered(_run, chunks):
                 absorb(res, err)
